@@ -1,8 +1,9 @@
 """C05 — a socket's path policy is honoured by every path handed to a sender."""
+import re
 import templates as T
 from facts import tokens, fmt, short, walk, strip_sites
 
-CRATES = ["scion_stack"]
+CRATES = ["scion_stack", "sciparse"]
 
 EXPLANATION = (
     "Provenance / must-pass-through analysis on the MIR (including coroutine bodies) of scion-stack's path manager. "
@@ -40,6 +41,7 @@ def _unref(t):
 
 
 def run(F, R, tier, cfg):
+    unevaluable_rule(F, R)
     import c06
     c06.best_valid_rule(F, R)      # 'an earlier lookup still valid': the candidate for the active slot is a Valid path
     # ---- A: filter on every fetch
@@ -325,3 +327,53 @@ def _best_path_callers(F, R, fn):
             if "field:cached_paths" not in tokens(n[2][0]):
                 ok = False
     return ok
+
+
+HOPS = "sciparse::scion::path::policy::types::PathPolicyHop::hops_from_path"
+
+
+def unevaluable_rule(F, R):
+    """MUST-evaluable: "a path whose policy evaluation is impossible (no metadata) is treated as rejected".  (a) every
+    PathPolicy::path_allowed impl in sciparse returns Ok(_) only after PathPolicyHop::hops_from_path(path) succeeded — every Ok
+    exit is dominated by the call and lies on its success edge; (b) hops_from_path returns Ok only with a hop list that was
+    pushed to (its Ok payload is the vector that received at least one push on every path), never a freshly created empty
+    vector: a path without metadata / without interfaces yields Err, which PathStrategy::predicate maps to 'rejected'."""
+    impls = [p for p, e in F.fns.items() if (e.get("trait_item") or "").endswith("policy::PathPolicy::path_allowed") and e["_crate"] == "sciparse" and not T.is_test_support(p)]
+    R.floor("MUST-evaluable", len(impls), 2, "PathPolicy::path_allowed impls in sciparse (ACL, hop pattern)")
+    for p in impls:
+        b = F.body(p)
+        R.fn(p)
+        oks = [bb for (bb, idx, adt, var) in T.result_variant_defs(b) if var == "Ok"]
+        hc = [c for c in b.calls if not c.indirect and (c.res or c.decl) == HOPS and c.bb in b.live_blocks()]
+        delegates = [c for c in b.calls if not c.indirect and (c.decl.endswith("PathPolicy::path_allowed") or (c.res or "").endswith("::path_allowed")) and c.bb in b.live_blocks()]
+        if not hc and delegates:
+            R.ob("MUST-evaluable", "%s delegates to another policy's path_allowed" % short(p), True, False)
+            continue
+        ok = bool(oks) and bool(hc) and all(any(b.dominates(c.bb, o) for c in hc) for o in oks)
+        if ok:
+            def pred(tk, o, g):
+                return o[0] == "disc" and any(n[0] == "call" and n[1] == HOPS for n in walk(o))
+            ok = all(T.guarded_by(b, o, pred, [0])[0] for o in oks)
+        R.ob("MUST-evaluable", "%s: Ok(_) only after hops_from_path(path) succeeded" % short(p), ok, True,
+             {"rule": "MUST-evaluable", "fn": p, "ok_exits": len(oks), "hops_from_path_calls": len(hc), "holds": ok})
+        if not ok:
+            R.violation("MUST-evaluable", p, "%s can answer Ok(allowed) without having derived the path's hops (no metadata / no interface list): an unevaluable path "
+                        "is treated as allowed instead of rejected" % short(p), F.loc(p))
+    b = F.body(HOPS)
+    if b is None:
+        R.anchor_missing(HOPS)
+        return
+    R.fn(HOPS)
+    oks = [(bb, idx) for (bb, idx, adt, var) in T.result_variant_defs(b) if var == "Ok"]
+    pushes = [c.bb for c in b.calls if not c.indirect and c.decl.endswith("::push") and c.bb in b.live_blocks()]
+    ok = bool(oks) and bool(pushes)
+    for bb, idx in oks:
+        st = b.stmts(bb)[idx]
+        o = strip_sites(b.origin(st[2][2][0]))
+        fresh_empty = o[0] == "call" and re.search(r"::(new|default)$", o[1]) and not o[2]
+        passes_push = T.must_pass(b, [bb], pushes)[0]
+        ok = ok and not fresh_empty and passes_push
+    R.ob("MUST-evaluable", "hops_from_path: every Ok carries a hop list that was pushed to on every path (%d push sites)" % len(pushes), ok, True)
+    if not ok:
+        R.violation("MUST-evaluable", HOPS, "hops_from_path can return Ok with an empty hop list (no interface was examined): default-allow ACLs and patterns "
+                    "matching the empty sequence accept the path unchecked", F.loc(HOPS))
